@@ -33,7 +33,7 @@ def run(run):
     run.extra["unit_weight_model_violates"] = True
     p = os.path.join(out, "Gen.cfg")
     with open(p, "w") as f:
-        f.write("SPECIFICATION GenSpec\nCHECK_DEADLOCK FALSE\nCONSTANTS\n  MG = %d\n  Nets = {}\n  Opts = {}\n  UnitWeights = FALSE\n  SlowHeuristic = FALSE\n" % (12 if quick else 2))
+        f.write("SPECIFICATION GenSpec\nCHECK_DEADLOCK FALSE\nCONSTANTS\n  MG = %d\n  MC = %d\n  Nets = {}\n  Opts = {}\n  UnitWeights = FALSE\n  SlowHeuristic = FALSE\n" % ((12, 3) if quick else (2, 1)))
     cp = os.path.join(out, "cases.ndjson")
     ncases = run.gen("gen", SPEC, "RouteGen", p, cp, workers=1, timeout=3000)
     tr1 = os.path.join(out, "trace_replay.ndjson")
